@@ -104,8 +104,9 @@ def print_case(case):
         return {"v": [], "stats": {"evals": 0}}
     if n < msl:
         return {"v": [], "stats": {"evals": 0}}
-    model = Kauri(max_clusters=p["max_clusters"], max_depth=p["max_depth"], min_samples_split=mss, min_samples_leaf=msl,
-                  max_features=p["max_features"], max_leaves=p["max_leaves"], kernel=p["kernel"], random_state=p["seed"])
+    kw_ = dict(max_clusters=p["max_clusters"], max_depth=p["max_depth"], min_samples_split=mss, min_samples_leaf=msl,
+               max_features=p["max_features"], max_leaves=p["max_leaves"], kernel=p["kernel"], random_state=p["seed"])
+    model = Kauri(**kw_) if p["seed"] == 0 else Kauri().set_params(**kw_)      # seed-axis deviation: hyperparameters arrive through set_params
     if n % 2 == 1:
         # history: the same object was fitted on other data (other width) and printed with names before
         Xo = np.random.RandomState(7).normal(size=(6, d + 2))
